@@ -14,7 +14,7 @@
    ans := write_dns q p downenc td, and for fst ans = Some d, r := client_extract buflen d (length d). *)
 From Coq Require Import List NArith ZArith Arith Bool Lia.
 From Iodine Require Import Base Codec CodecProofs Hostname DnsName DnsWf DnsMsg
-  DnsMsgProofs_Base DnsMsgProofs_Null DnsMsgProofs_Txt DnsMsgProofs_Name DnsMsgProofs_Mx DnsMsgProofs_MxClient DnsMsgProofs DnsMsgExamples_C09.
+  DnsMsgProofs_Base DnsMsgProofs_Null DnsMsgProofs_Txt DnsMsgProofs_Name DnsMsgProofs_Mx DnsMsgProofs_MxClient DnsMsgProofs DnsMsgProofs_Sent DnsMsgProofs_MxSize DnsMsgExamples_C09.
 Import ListNotations.
 Local Open Scope N_scope.
 
@@ -81,26 +81,44 @@ Theorem C09_monotone : forall q p p' downenc td td' buflen d d',
 Proof. exact c09_monotone. Qed.
 Print Assumptions C09_monotone.
 
-(* size of the emitted datagram (NULL, PRIVATE, TXT, CNAME, A; within capacity): a closed form that
-   is non-decreasing in the payload length and in the question-name length *)
-Theorem C09_size : forall q p downenc td d,
-  is_ctype (q_type q) -> ~ mx_type (q_type q) -> wf_qname (q_name q) -> bytes_ok p ->
+(* the hypothesis "fst ans = Some d" is always met in the quantified range: the server does send *)
+Theorem C09_sent : forall q p downenc td,
+  is_ctype (q_type q) -> wf_qname (q_name q) -> bytes_ok p -> (1 <= length p <= N.to_nat 4096)%nat ->
+  exists d, fst (write_dns q p downenc td) = Some d.
+Proof. exact c09_sent. Qed.
+Print Assumptions C09_sent.
+
+(* ... and within capacity the client gets exactly the payload *)
+Theorem C09_delivered : forall q p downenc td buflen,
+  q_id q < 65536 -> is_ctype (q_type q) -> wf_qname (q_name q) ->
+  bytes_ok p -> (2 <= length p)%nat -> client_fits (q_type q) (length p) buflen ->
   (length p <= capacity (q_type q) downenc)%nat ->
+  exists d, fst (write_dns q p downenc td) = Some d /\
+            let r := client_extract buflen d (length d) in da_rv r = Z.of_nat (length p) /\ da_out r = p.
+Proof. exact c09_delivered. Qed.
+Print Assumptions C09_delivered.
+
+(* size of the emitted datagram, all seven types, within capacity: a closed form
+   (ans_size_all: ans_size for the single-record types, mx_size for MX / SRV) ... *)
+Theorem C09_size : forall q p downenc td d,
+  is_ctype (q_type q) -> wf_qname (q_name q) -> bytes_ok p ->
+  (1 <= length p <= capacity (q_type q) downenc)%nat ->
   fst (write_dns q p downenc td) = Some d ->
-  length d = ans_size (q_type q) downenc (length (q_name q)) (length p).
-Proof. exact c09_size. Qed.
+  length d = ans_size_all (q_type q) downenc (length (q_name q)) (length p).
+Proof. exact c09_size_all. Qed.
 Print Assumptions C09_size.
 
-Theorem C09_size_monotone_partial : forall q q' p p' downenc td td' d d',
-  is_ctype (q_type q) -> ~ mx_type (q_type q) -> q_type q' = q_type q ->
+(* ... that is non-decreasing in the payload length and in the question-name length *)
+Theorem C09_size_monotone : forall q q' p p' downenc td td' d d',
+  is_ctype (q_type q) -> q_type q' = q_type q ->
   wf_qname (q_name q) -> wf_qname (q_name q') -> (length (q_name q) <= length (q_name q'))%nat ->
-  bytes_ok p -> bytes_ok p' -> (length p <= length p')%nat ->
+  bytes_ok p -> bytes_ok p' -> (1 <= length p <= length p')%nat ->
   (length p' <= capacity (q_type q) downenc)%nat ->
   fst (write_dns q p downenc td) = Some d ->
   fst (write_dns q' p' downenc td') = Some d' ->
   (length d <= length d')%nat.
-Proof. exact c09_size_monotone_partial. Qed.
-Print Assumptions C09_size_monotone_partial.
+Proof. exact c09_size_monotone. Qed.
+Print Assumptions C09_size_monotone.
 
 (* the two buffer sizes the client really uses *)
 Theorem C09_client_buffers : forall ty n,
